@@ -373,10 +373,11 @@ func specStay(v int) bool {
 //@   ensures [step] implies(!old(lexInit(l)), l.position == ite(old(l.position) < len(l.input), old(l.position)+1, len(l.input)))
 //@   ensures [first] implies(old(lexInit(l)), l.position == 0)
 
+// PeekChar needs no cursor invariant: it looks at the byte at readPosition, whatever the state.
 //@ func (l *Lexer) PeekChar()
 //@   props C10 C11
-//@   requires lexInv(l)
-//@   ensures [peek] result == byteAt(l.input, l.position+1)
+//@   requires [read] l.readPosition >= 0
+//@   ensures [peek] result == byteAt(l.input, l.readPosition)
 
 //@ func (l *Lexer) NewToken(tokenType, literal)
 //@   props C10 C14 C15
